@@ -328,10 +328,22 @@ impl<NumericTypes: EvalexprNumericTypes> Node<NumericTypes> {
         &self,
         context: &C,
     ) -> EvalexprResultValue<NumericTypes> {
+        #[cfg(feature = "verif-hooks")]
+        crate::verif::eval_event(
+            crate::verif::EvalEventKind::Enter,
+            self as *const Self as usize,
+            false,
+        );
         let mut arguments = Vec::new();
         for child in self.children() {
             arguments.push(child.eval_with_context(context)?);
         }
+        #[cfg(feature = "verif-hooks")]
+        crate::verif::eval_event(
+            crate::verif::EvalEventKind::Apply,
+            self as *const Self as usize,
+            false,
+        );
         self.operator().eval(&arguments, context)
     }
 
@@ -344,10 +356,22 @@ impl<NumericTypes: EvalexprNumericTypes> Node<NumericTypes> {
         &self,
         context: &mut C,
     ) -> EvalexprResultValue<NumericTypes> {
+        #[cfg(feature = "verif-hooks")]
+        crate::verif::eval_event(
+            crate::verif::EvalEventKind::Enter,
+            self as *const Self as usize,
+            true,
+        );
         let mut arguments = Vec::new();
         for child in self.children() {
             arguments.push(child.eval_with_context_mut(context)?);
         }
+        #[cfg(feature = "verif-hooks")]
+        crate::verif::eval_event(
+            crate::verif::EvalEventKind::Apply,
+            self as *const Self as usize,
+            true,
+        );
         self.operator().eval_mut(&arguments, context)
     }
 
